@@ -12,17 +12,21 @@ TB = ('Trusted: Coq 8.16.1 kernel (no axioms: Print Assumptions must print "Clos
 
 CLAIMS = {
     'C01': dict(
-        technique='Coq program-level round-trip theorem (loose paths) + invariant-based recovery theorem + size/path/config grid differential',
+        technique='Coq program-level round-trip theorems for every write path (loose, direct-to-pack in all modes, loose-then-pack) + invariant-based recovery theorem + size/path/config grid differential',
         text=('PROOF (Coq, closed): C01_loose_roundtrip - for every world satisfying the C03 invariant, every content and EVERY chunking of the source '
               'stream, the model program of add_object/add_streamed_object (Programs.p_add_loose, event semantics Store.apply_ev) ends in a state where '
-              'the library-free read of H(content) returns exactly the content; C01_packed_entries_read_back - every index entry (plain or compressed) '
-              'reads back as bytes with the key as digest and the recorded size; C01_packed_reader_returns_the_bytes (C07 simulation, any read program); '
-              'chunk constants from the AST are positive. TIE: event semantics validated against the real folder on the write-path traces; the grid '
-              '(13 sizes straddling 64 KiB/512 KiB/1 MiB x 4 content kinds x 10 write paths x hash x prefix 0-3 x zlib level x pack target) is executed '
-              'on the implementation against hashlib and the bytes, reads whole/chunked/bulk/stream+meta/raw. PARTIAL: the direct-to-pack and '
-              'pack_all_loose write programs are not proved end-to-end in Coq (covered by the verified monitor on their traces and the grid); the '
-              'hash is an injective Section variable, incremental hashing and zlib are assumptions validated by the grid.'),
+              'the library-free read of H(content) returns exactly the content; C01_direct_to_pack_roundtrip - the same for add_objects_to_pack / '
+              'add_streamed_object(s)_to_pack, EVERY batch (repetitions, known content), compressed or not, all three no_holes modes; '
+              'C01_loose_then_pack_roundtrip (pack_all_loose, one pack, any per-object compression outcome); C01_packed_entries_read_back - every index '
+              'entry reads back as bytes with the key as digest and the recorded size; C01_packed_reader_returns_the_bytes (C07 simulation, any read '
+              'program); chunk constants from the AST are positive. TIE: the programs reproduce the intercepted event traces of the write-path '
+              'scenarios, event semantics validated against the real folder; the grid (13 sizes straddling 64 KiB/512 KiB/1 MiB x 5 content kinds incl. '
+              'already-compressed payloads x 12 write paths incl. AUTO x hash x prefix 0-3 x zlib level x pack target) is executed on the implementation '
+              'against hashlib and the bytes, reads whole/chunked/bulk/stream+meta/raw. PARTIAL: the hash is an injective Section variable; '
+              'incremental hashing and zlib (the stored blob decodes to the content) are assumptions validated by the grid; pack roll-over inside one '
+              'call is not in the programs.'),
         design='4/C01'),
+
     'C02': dict(
         technique='Coq refinement lemmas (abstraction stored : key->bytes) + verified trace monitor + random histories vs dict',
         text=('PROOF (Coq, closed): abstraction Store.stored; C02_views_are_the_map (library read path = abstraction under the invariant), '
@@ -136,13 +140,18 @@ CLAIMS = {
               'is hand-written and tied by the sweep, zlib is an oracle.'),
         design='4/C12'),
     'C13': dict(
-        technique='Coq step theorem (referenced bytes kept) + verified per-step trace checker + before/after pack comparison',
-        text=('PROOF (Coq, closed): C13_step_keeps_referenced_bytes (every accepted event, incl. the no_holes truncation at/above the last referenced '
-              'byte), C13_trace_checker_sound, C13_monotone_history_keeps_referenced_bytes. TIE: extracted c13_all_b accepts every step of 23 '
-              'repack-free implementation traces; 166 repack-free histories (targets 50/300/4GiB, reopened and parallel handles) compare every pack '
-              'before/after every step and check consecutive ids and "all but the last pack reached the target and are never written again". '
-              'PARTIAL: the layout half (pack numbering / fill order, _get_pack_id_to_write_to) is decided by differential testing only.'),
+        technique='Coq: every step of the direct-to-pack and import programs keeps referenced bytes (all inputs); step theorem + verified per-step trace checker; pack-choice theorem; before/after pack comparison',
+        text=('PROOF (Coq, closed): C13_add_to_pack_every_step / C13_import_every_step (for ALL inputs every single step of add_*_to_pack - the '
+              'no_holes truncations included - and of the import transfer keeps every referenced byte of every pack and never cuts a pack below its '
+              'last referenced byte), C13_import_steps_pass_the_side_conditions, C13_step_keeps_referenced_bytes (every accepted event), '
+              'C13_trace_checker_sound, C13_monotone_history_keeps_referenced_bytes, C13_pack_choice_keeps_layout (_get_pack_id_to_write_to never '
+              'returns an earlier full pack). TIE: extracted c13_all_b accepts every step of 23 repack-free implementation traces; PickPack.pick == '
+              '_get_pack_id_to_write_to on planted pack files; repack-free histories (targets 50/300/4GiB, reopened and parallel handles) compare '
+              'every pack before/after every step and check consecutive ids and "all but the last pack reached the target and are never written '
+              'again". PARTIAL: pack roll-over inside one call (the per-object consultation of _get_pack_id_to_write_to) is decided by the '
+              'histories and the pick correspondence, not by a program theorem; pack_all_loose steps are certified by the trace checker only.'),
         design='4/C13'),
+
     'C14': dict(
         technique='Coq: import as a program (all batch lists, packs, modes) proved complete, byte-identical and crash-safe; cache plan proved a permutation within budget; merge classification; trace, plan and history correspondence',
         text=('PROOF (Coq, closed): C14_transfer_complete_and_byte_identical (Programs.p_import: ANY list of do_commit=False batches over ANY packs, '
